@@ -33,6 +33,7 @@ class SplitNeeded(RuntimeError):
 
 class St:
     split_assume = []
+    split_pre = []
     """Engine state (one per process)."""
     mode = "REAL"
     explorer = None
@@ -225,7 +226,7 @@ class SymBool:
                 return True
             if s.check(self.e) == z3.unsat:
                 return False
-            A = list(getattr(St, "split_assume", ()))
+            A = list(getattr(St, "split_assume", ())) + list(getattr(St, "split_pre", ()))
             if A:
                 # the harness is re-running this case under assumed outcomes of earlier value-dependent branches
                 s.add(A)
